@@ -81,7 +81,7 @@ def call_closure(ex, st, clo, args):
         return ex.call(st, cv.what[1], list(args))
     if not isinstance(cv, Agg) or not cv.ty.startswith('{closure@'):
         raise Inconclusive('not a closure: %r' % (cv,))
-    f = ex.closure_index.get(cv.ty)
+    f = ex.closure_body(cv.ty)
     if f is None:
         raise Inconclusive('closure body not found: ' + cv.ty)
     first = f.params[0][1]
@@ -220,7 +220,7 @@ def m_rev_next(ex, st, m, a):
 def m_slice_iter(ex, st, m, a):
     r = a[0]
     items, s0 = seq_items(ex, st, r)
-    return Agg('SliceIter', (Ref(r.addr, r.path), s0, s0 + len(items), 'mut' in m.group(0)))
+    return Agg('SliceIter', (Ref(r.addr, r.path), s0, s0 + len(items), bool(m is not None and 'mut' in m.group(0))))
 
 
 def m_slice_iter_next(ex, st, m, a):
@@ -247,6 +247,19 @@ def m_vec_into_iter_next(ex, st, m, a):
         return none()
     ex.store(st, a[0], Agg(v.ty, (base, i + 1, n)))
     return some(ex.load(st, base.ext(('i', i))))
+
+
+def m_into_iter(ex, st, m, a):
+    x = a[0]
+    if isinstance(x, Agg) and x.ty == 'Vec':
+        return m_vec_into_iter(ex, st, m, a)
+    if isinstance(x, Agg) and x.ty == '[array]':
+        return m_vec_into_iter(ex, st, m, [Agg('Vec', x.f)])
+    if isinstance(x, Ref):
+        v = ex.load(st, Ref(x.addr, x.path))
+        if isinstance(v, Agg) and v.ty in ('[array]', 'Vec'):
+            return m_slice_iter(ex, st, m, a)
+    return x
 
 
 def m_zip(ex, st, m, a):
@@ -516,11 +529,67 @@ def m_mac(ex, st, m, a):
     return BV(64, False, z3.Extract(63, 0, t))
 
 
+def m_default_array(ex, st, m, a):
+    ty, n = m.group(1), int(m.group(2))
+    w, sg = INT_TYPES[ty]
+    return Agg('[array]', [BV(w, sg, 0)] * n)
+
+
+def m_default_int(ex, st, m, a):
+    w, sg = INT_TYPES[m.group(1)]
+    return BV(w, sg, 0)
+
+
+def m_clz(ex, st, m, a):
+    x = a[0]
+    if x.concrete:
+        return BV(32, False, x.w - x.v.bit_length())
+    r = z3.BitVecVal(x.w, 32)
+    for i in range(x.w):
+        r = z3.If(z3.Extract(i, i, x.v) == 1, z3.BitVecVal(x.w - 1 - i, 32), r)
+    return BV(32, False, r)
+
+
+def m_array_as_slice(ex, st, m, a):
+    r = a[0]
+    if r.length is not None:
+        return r
+    n = ex.seq_len(st, r)
+    return Ref(r.addr, r.path, usize(0), usize(n))
+
+
+def m_ref_int_op(ex, st, m, a):
+    """<&iN as Op<iN>>::op -- arithmetic on a reference to an integer; overflow / division by zero panics in debug
+    and release alike for Div/Rem/Neg(MIN) only when they really occur: recorded as obligations"""
+    op = m.group('op')
+    x = deref(ex, st, a[0]) if isinstance(a[0], Ref) else a[0]
+    if op == 'neg':
+        mn = BV(x.w, x.s, 1 << (x.w - 1))
+        c = simp_bool(b_not(ex.binop('Eq', x, mn)))
+        ex.oblige(st, 'panic', c, 'attempt to negate with overflow', ('leaf', m.group(0)))
+        return ex.unop(st, 'Neg', x)
+    y = deref(ex, st, a[1]) if isinstance(a[1], Ref) else a[1]
+    name = {'div': 'Div', 'rem': 'Rem', 'add': 'Add', 'sub': 'Sub', 'mul': 'Mul'}[op]
+    if name in ('Div', 'Rem'):
+        c = simp_bool(b_not(ex.binop('Eq', y, BV(y.w, y.s, 0))))
+        ex.oblige(st, 'panic', c, 'division by zero', ('leaf', m.group(0)))
+        if x.s:
+            c2 = simp_bool(b_not(b_and(ex.binop('Eq', x, BV(x.w, x.s, 1 << (x.w - 1))), ex.binop('Eq', y, BV(y.w, y.s, -1)))))
+            ex.oblige(st, 'panic', c2, 'division overflow', ('leaf', m.group(0)))
+    return ex.binop(name, x, y)
+
+
 STD_MODELS = [
+    (r'<&(?:i64|u64|usize|i32|u32) as (?:std::ops::)?(?:Neg|Div<\w+>|Rem<\w+>|Add<\w+>|Sub<\w+>|Mul<\w+>)>::(?P<op>neg|div|rem|add|sub|mul)', m_ref_int_op),
+    (r'<\[(u8|u16|u32|u64|usize|i64); (\d+)\] as Default>::default', m_default_array),
+    (r'<(u8|u16|u32|u64|usize|i64|i32) as Default>::default', m_default_int),
+    (r'core::num::<impl (?:u64|u32|usize)>::leading_zeros', m_clz),
+    (r'<\[.+; \d+\] as AsRef<\[.+\]>>::as_ref', m_array_as_slice),
+    (r'<\[.+; \d+\] as AsMut<\[.+\]>>::as_mut', m_array_as_slice),
     (r'<.+ as Clone>::clone', m_clone),
     (r'<.+ as Into<.+>>::into', m_identity),
     (r'<.+ as From<.+>>::from', lambda ex, st, m, a: NotImplemented),
-    (r'<.+ as IntoIterator>::into_iter', lambda ex, st, m, a: m_vec_into_iter(ex, st, m, a) if (isinstance(a[0], Agg) and a[0].ty == 'Vec') else a[0]),
+    (r'<.+ as IntoIterator>::into_iter', lambda ex, st, m, a: m_into_iter(ex, st, m, a)),
     (r'<(std::ops::|core::ops::)?Range<\w+> as Iterator>::next', m_range_next),
     (r'<(std::ops::|core::ops::)?RangeInclusive<\w+> as Iterator>::next', m_range_incl_next),
     (r'(std::ops::|core::ops::)?RangeInclusive::<\w+>::new', m_range_incl_new),
@@ -565,6 +634,63 @@ STD_MODELS = [
 
 
 # ------------------------------------------------------------------ ring domain
+def _monomials(t):
+    """t: result of simplify(som=True). returns {tuple(sorted factor strings)}: (coef, [factor terms])} or None"""
+    terms = t.children() if z3.is_add(t) else [t]
+    out = {}
+    for m in terms:
+        coef, facs = 1, []
+        stack = [m]
+        while stack:
+            x = stack.pop()
+            if z3.is_mul(x):
+                stack.extend(x.children())
+            elif z3.is_int_value(x):
+                coef *= x.as_long()
+            elif z3.is_app_of(x, z3.Z3_OP_UMINUS):
+                coef = -coef
+                stack.append(x.children()[0])
+            else:
+                facs.append(x)
+        facs.sort(key=lambda f: (str(f.decl()), f.get_id()) if z3.is_const(f) else (str(f), f.get_id()))
+        key = tuple(str(f) if z3.is_const(f) else 'T%d' % f.get_id() for f in facs)
+        if key in out:
+            out[key] = (out[key][0] + coef, facs)
+        else:
+            out[key] = (coef, facs)
+    return out
+
+
+def canon_poly(e):
+    """canonical representative of the polynomial e up to sign (monomials and factors sorted by name, leading
+    coefficient positive) so that syntactically different writings of p and -p give the same term"""
+    if isinstance(e, int):
+        return z3.IntVal(e)
+    t = z3.simplify(e, som=True)
+    if z3.is_int_value(t):
+        return t
+    mons = _monomials(t)
+    keys = sorted(k for k in mons if mons[k][0] != 0)
+    if not keys:
+        return z3.IntVal(0)
+    sign = 1 if mons[keys[0]][0] > 0 else -1
+    parts = []
+    for k in keys:
+        c, facs = mons[k]
+        c *= sign
+        term = None
+        for f in facs:
+            term = f if term is None else term * f
+        if term is None:
+            parts.append(z3.IntVal(c))
+        else:
+            parts.append(term if c == 1 else z3.IntVal(c) * term)
+    r = parts[0]
+    for x in parts[1:]:
+        r = r + x
+    return r
+
+
 def _const_limbs(v):
     while isinstance(v, Agg) and len(v.f) == 1 and isinstance(v.f[0], Agg):
         v = v.f[0]
@@ -603,7 +729,7 @@ class RingDomain:
             if self.concrete_mod:
                 return e % self.concrete_mod == 0
             return e == 0
-        s = z3.simplify(e)
+        s = canon_poly(e)
         if z3.is_int_value(s):
             v = s.as_long()
             if self.concrete_mod:
